@@ -64,7 +64,8 @@ OBJECTS = {
     "jacs": [dict(maxiter=3, tol=None, dim=2, mass=1.0, diff=1.0), dict(maxiter=2, tol=None, dim=2, mass=2.0, diff=0.5)],
     "mgs": [dict(depth=1, sm=2, maxiter=2, dim=2, mass=1.0, diff=1.0), dict(depth=1, sm=2, maxiter=1, dim=2, mass="a0", diff=1.0)],
     "aas": [dict(depth=2, restart=3), dict(depth=3, restart=None)],
-    "ws": [dict(kind="newton", solver="direct"), dict(kind="bregman", solver="direct"), dict(kind="newton", solver="amg")],
+    "ws": [dict(kind=k, solver=sv, formulation=fm) for k in ("newton", "bregman")
+           for sv, fm in (("direct", "full"), ("direct", "pressure"), ("amg", "pressure"))],
 }
 
 
@@ -79,25 +80,27 @@ class Objs:
         self.mgs = [d.MG(depth=o["depth"], smoother_iterations=o["sm"], maxiter=o["maxiter"], dim=o["dim"],
                          mass_coeff=coef_value(o["mass"]), diffusion_coeff=coef_value(o["diff"])) for o in OBJECTS["mgs"]]
         self.aas = [d.AndersonAcceleration(dimension=None, depth=o["depth"], restart=o["restart"]) for o in OBJECTS["aas"]]
-        self.ws = []
-        if with_ws:
-            img = wimage(d, 0)
-            grid = d.generate_grid(img)
-            for o in OBJECTS["ws"]:
-                opts = {"num_iter": 6, "tol_residual": 1e-10, "tol_increment": 1e-10, "tol_distance": 1e-10, "L": 1e2 if o["kind"] == "newton" else 1.0,
-                        "aa_depth": 2, "aa_restart": 3, "verbose": False}
-                if o["solver"] == "direct":
-                    opts.update(linear_solver="direct", formulation="full")
-                else:
-                    opts.update(linear_solver="amg", formulation="pressure", linear_solver_options={"atol": 1e-10})
-                cls = d.WassersteinDistanceNewton if o["kind"] == "newton" else d.WassersteinDistanceBregman
-                self.ws.append(cls(grid, None, opts))
+        self._d = d
+        self._ws = {}
+
+    def ws(self, i):
+        """distance objects are built on first use (4x5 grid, few nonlinear iterations, Anderson acceleration on)"""
+        if i not in self._ws:
+            d, o = self._d, OBJECTS["ws"][i]
+            grid = d.generate_grid(wimage(d, 0))
+            opts = {"num_iter": 8, "tol_residual": 1e-10, "tol_increment": 1e-10, "tol_distance": 1e-10, "L": 1e2 if o["kind"] == "newton" else 1.0,
+                    "aa_depth": 2, "aa_restart": 3, "verbose": False, "linear_solver": o["solver"], "formulation": o["formulation"]}
+            if o["solver"] == "amg":
+                opts["linear_solver_options"] = {"atol": 1e-10}
+            cls = d.WassersteinDistanceNewton if o["kind"] == "newton" else d.WassersteinDistanceBregman
+            self._ws[i] = cls(grid, None, opts)
+        return self._ws[i]
 
 
 def wimage(d, k):
-    """mass distributions on a 6x6 grid (unit mass)"""
-    a = np.zeros((6, 6))
-    sl = [(slice(1, 3), slice(1, 3)), (slice(3, 5), slice(2, 5)), (slice(0, 2), slice(3, 6)), (slice(2, 6), slice(0, 2))][k % 4]
+    """mass distributions on a 4x5 grid (unit mass)"""
+    a = np.zeros((4, 5))
+    sl = [(slice(0, 2), slice(0, 2)), (slice(2, 4), slice(2, 5)), (slice(0, 1), slice(3, 5)), (slice(1, 4), slice(0, 1))][k % 4]
     a[sl] = 1.0
     img = d.Image(a, space_dim=2, dimensions=[1.0, 1.0], scalar=True)
     img.img /= d.Geometry(**img.shape_metadata()).integrate(img)
@@ -121,9 +124,9 @@ def execute(d, objs, op):
     if k in ("h1", "sb") and op["solver"] != "d":
         kw["solver"] = objs.jacs[op["solver"][1]] if op["solver"][0] == "j" else objs.mgs[op["solver"][1]]
     if k == "h1":
-        return call(d.H1_regularization, data(op["data"]).copy(), mu=op["mu"], omega=op["omega"], dim=2, **kw)
+        return call(d.H1_regularization, data(op["data"]).copy(), mu=coef_value(op["mu"]), omega=coef_value(op["omega"]), dim=2, **kw)
     if k == "sb":
-        return call(d.split_bregman_tvd, data(op["data"]).copy(), mu=op["mu"], omega=op["omega"], ell=op.get("ell"), dim=2,
+        return call(d.split_bregman_tvd, data(op["data"]).copy(), mu=coef_value(op["mu"]), omega=coef_value(op["omega"]), ell=coef_value(op.get("ell")), dim=2,
                     max_num_iter=op["iters"], isotropic=op.get("isotropic", False), **kw)
     if k == "tvd":
         if op["method"] == "heterogeneous bregman":
@@ -141,7 +144,7 @@ def execute(d, objs, op):
         return call(run)
     if k == "di":
         def run():
-            r = objs.ws[op["i"]](wimage(d, op["pair"]), wimage(d, op["pair"] + 1))
+            r = objs.ws(op["i"])(wimage(d, op["pair"]), wimage(d, op["pair"] + 1))
             return np.asarray(r[0] if isinstance(r, tuple) else r, dtype=float)
         return call(run)
     raise ValueError(k)
@@ -164,7 +167,7 @@ def digest(r):
     if r is None:
         return "none"
     a = np.ascontiguousarray(np.asarray(r))
-    return f"{a.dtype.str}{list(a.shape)}:{hashlib.sha256(a.tobytes()).hexdigest()[:24]}"
+    return f"{a.dtype.str}{list(a.shape)}:{hashlib.sha256(a.tobytes()).hexdigest()[:24]}" + (f"={float(a.ravel()[0])!r}" if a.size == 1 else "")
 
 
 def needs_ws(ops):
@@ -262,7 +265,7 @@ def op_tok(op, n):
     if k == "an":
         return f"an {op['i']} {op['n']} " + " ".join(str(1000 * n + t) for t in range(op["n"]))
     if k == "di":
-        return f"di {op['i']} {1 if OBJECTS['ws'][op['i']]['kind'] == 'bregman' else 0} {op['pair']} 6"
+        return f"di {op['i']} {1 if OBJECTS['ws'][op['i']]['kind'] == 'bregman' else 0} {op['pair']} 8"
     raise ValueError(k)
 
 
@@ -303,9 +306,16 @@ GROUPS = {
     "mg-object": [
         dict(op="mc", i=0, data=0),
         dict(op="mu", i=0, diff=3.0),
-        dict(op="mc", i=1, data=1),
         dict(op="mc", i=0, data=2),
         dict(op="h1", solver=["m", 0], mu=2.0, omega=1.0, data=0),
+    ],
+    "mg-heterogeneous": [
+        dict(op="mc", i=1, data=1),
+        dict(op="mu", i=1, mass="a1"),
+        dict(op="mu", i=1, mass="a2", diff="a1"),
+        dict(op="h1", solver=["m", 1], mu="a1", omega="a2", data=0),
+        dict(op="h1", solver=["m", 1], mu="a2", omega="a0", data=0),
+        dict(op="sb", solver=["m", 1], mu=0.25, omega="a1", ell="a2", iters=2, data=1),
     ],
     "anderson": [
         dict(op="an", i=0, n=5, a=0.5, data=0),
@@ -314,7 +324,15 @@ GROUPS = {
         dict(op="an", i=0, n=4, a=0.5, data=2, size=12),
     ],
 }
-WS_GROUP = [dict(op="di", i=0, pair=0), dict(op="di", i=0, pair=1), dict(op="di", i=1, pair=0), dict(op="di", i=1, pair=2), dict(op="di", i=2, pair=0), dict(op="di", i=2, pair=1)]
+WS_PAIRS = (0, 1, 2)
+
+
+def ws_sequences(maxlen):
+    """every distance object on up to `maxlen` successive pairs"""
+    for i in range(len(OBJECTS["ws"])):
+        for k in range(1, maxlen + 1):
+            for pairs in itertools.product(WS_PAIRS, repeat=k):
+                yield [dict(op="di", i=i, pair=p) for p in pairs]
 
 
 def slow(op):
@@ -325,7 +343,8 @@ def slow(op):
 def sequences(ctx):
     """quick: all sequences of length <= 2 over the whole alphabet, a seeded sample of 1500 triples without split-Bregman calls,
     all sequences of length <= 3 inside every group of operations that share an object.
-    thorough: all of length <= 3 over the whole alphabet (at most one numba-compiling split-Bregman call per triple), all of
+    thorough: all of length <= 3 over the whole alphabet without split-Bregman calls plus 2500 sampled triples with one such
+    (numba-compiling) call, all of
     length <= 4 inside every group (at most two such calls), distance objects on up to three successive pairs."""
     alphabet = [o for g in GROUPS.values() for o in g]
     seen = set()
@@ -341,9 +360,15 @@ def sequences(ctx):
         for seq in itertools.product(alphabet, repeat=k):
             emit(seq)
     if ctx.big:
+        one_slow = []
         for seq in itertools.product(alphabet, repeat=3):
-            if sum(map(slow, seq)) <= 1:
+            n = sum(map(slow, seq))
+            if n == 0:
                 emit(seq)
+            elif n == 1:
+                one_slow.append(seq)
+        for seq in ctx.rng.sample(one_slow, 2500):
+            emit(seq)
     else:
         fast = [o for o in alphabet if not slow(o)]
         for _ in range(1500):
@@ -353,11 +378,8 @@ def sequences(ctx):
             for seq in itertools.product(g, repeat=k):
                 if sum(map(slow, seq)) <= (1 if k == 3 and not ctx.big else 2):
                     emit(seq)
-    if ctx.big:
-        for k in range(1, 4):
-            for seq in itertools.product(WS_GROUP, repeat=k):
-                if len({o["i"] for o in seq}) == 1:
-                    emit(seq)
+    for seq in ws_sequences(ctx.pick(2, 3)):
+        emit(seq)
     return out
 
 
@@ -370,6 +392,9 @@ def signature(op, prev):
         via = "(default solver)" if op["solver"] == "d" else f"(explicit {'Jacobi' if op['solver'][0] == 'j' else 'MG'})"
     if k == "mc" and isinstance(OBJECTS["mgs"][op["i"]]["mass"], str):
         via = "(heterogeneous coefficients)"
+    if k == "di":
+        o = OBJECTS["ws"][op["i"]]
+        via = f"({o['kind']},{o['solver']}/{o['formulation']})"
     return f"C16:{who}{via}:depends-on-earlier-{prev}"
 
 
@@ -547,10 +572,10 @@ def _run(ctx, d, zyg):
         ctx.mark("CORR-BROKEN", {"correspondence": "stateful-sequences", "sequence": first[0], "impl_equal_to_fresh": first[1], "model": first[2], "n_diffs": ndiff})
         ctx.log(f"correspondence stateful-sequences: {ndiff} disagreements, e.g. {json.dumps(first[0])[:300]} impl={first[1]} model={first[2][:200]}")
 
-    ctx.cov["rule"] = ("sequences: quick = all of length <= 2 over the 24-operation alphabet + 1500 sampled triples + all of length <= 3 inside each group; thorough = all of "
-                       "length <= 3 over the alphabet (at most one numba-compiling split-Bregman call per triple) + all of length <= 4 inside each "
+    ctx.cov["rule"] = ("sequences: quick = all of length <= 2 over the 28-operation alphabet + 1500 sampled triples + all of length <= 3 inside each group; thorough = all of "
+                       "length <= 3 over the alphabet without split-Bregman calls + 2500 sampled triples with one such call + all of length <= 4 inside each "
                        "group sharing an object (default H1 solver, default split-Bregman solver, one Jacobi object, MG objects, Anderson objects); "
-                       "thorough adds distance objects (Newton/Bregman, direct/AMG) on successive pairs; EVERY call of every sequence is compared with "
+                       "both tiers: six distance objects (Newton/Bregman x direct-full/direct-pressure/amg-pressure) on 2 (quick) / 3 (thorough) successive pairs; EVERY call of every sequence is compared with "
                        "its fresh-process reference; distinct = sequence")
     ctx.assumptions += ["numpy/scipy/numba/pyamg give bit-identical results for identical inputs in different processes on this machine",
                         "a fork of an interpreter that has only imported darsia is a fresh process (cross-checked against real subprocesses on a sample)"]
